@@ -56,6 +56,19 @@ def main(rep, ws, tier):
     bc = ws.compile_file('c18_random', build.REPO + '/src/Imath/ImathRandom.cpp')
     mod = ws.irx(bc, prefixes=('_ZN9Imath',), opaque=())
     I = vg.Interp(mod)
+    # the state behind srand48 / lrand48 / drand48 is one process-wide object (POSIX): an ordinary global, not a thread-local one
+    try:
+        import subprocess, re as _re
+        ll = subprocess.run(['llvm-dis-14', bc, '-o', '-'], stdout=subprocess.PIPE, stderr=subprocess.STDOUT, text=True).stdout
+        gl = [l for l in ll.splitlines() if l.startswith('@') and 'staticState' in l.split('=')[0]]
+        if len(gl) != 1:
+            rep.ob('static state: storage', 'R18.s', UNDECIDED, 'expected one global named staticState, found %d' % len(gl), 'src/Imath/ImathRandom.cpp')
+        else:
+            tl = 'thread_local' in gl[0]
+            rep.ob('static state: storage', 'R18.s', VIOLATED if tl else HOLDS, 'the state shared by srand48, lrand48 and drand48 has thread storage duration: srand48 on one thread does not seed the draws of another, and draws on another thread do not advance it (POSIX keeps one state per process)' if tl else
+                   'one global object shared by srand48, lrand48 and drand48', 'src/Imath/ImathRandom.cpp', nontrivial=False)
+    except OSError as e:
+        rep.ob('static state: storage', 'R18.s', UNDECIDED, str(e), 'src/Imath/ImathRandom.cpp')
     def fn(sub):
         c = [n for n in I.funcs if sub in n]
         return c[0] if c else None
